@@ -772,6 +772,37 @@ func crcFaults(c *vf.Ctx) {
 		}
 	})
 	c.Add("crc_fault_cases", int64(len(jobs)))
+	// special checksum VALUES (not reachable by single-character faults): the whole 24-bit value
+	// replaced by 0, 2^24-1, 1, 2^23 and the byte-swapped real value - a well-formed checksum
+	// line that does not match the body must be rejected whatever its value is
+	for n, out := range armored {
+		o := crcOff[n]
+		real := string(out[o+1 : o+5])
+		swapped := []byte(real)
+		swapped[0], swapped[3] = swapped[3], swapped[0]
+		for _, v := range []string{"AAAA", "////", "AAAB", "gAAA", string(swapped)} {
+			if v == real {
+				continue
+			}
+			mut := append([]byte{}, out...)
+			copy(mut[o+1:o+5], v)
+			var derr, rerr error
+			p, pv, _ := vf.Protect(func() {
+				var blk *armor.Block
+				blk, derr = armor.Decode(bytes.NewReader(mut))
+				if derr == nil {
+					_, rerr = readChunks(blk.Body, 0)
+				}
+			})
+			c.Eval(1)
+			c.Nontrivial(fmt.Sprintf("B/value/%d/%s", n, v))
+			if p {
+				c.Violation("armor.Decode panics on a replaced checksum value", map[string]any{"len": n, "checksum": v, "panic": fmt.Sprint(pv)})
+			} else if derr == nil && rerr == nil {
+				c.Violation("a well-formed CRC-24 line that does not match the body is accepted", map[string]any{"len": n, "checksum_line": "=" + v, "real": "=" + real, "armored": string(mut)})
+			}
+		}
+	}
 }
 
 func errKind(err error) string {
